@@ -332,7 +332,7 @@ def judge_and_report(chk: Check, cases: T.List[T.Dict[str, T.Any]], label: str, 
                                                               'verdict was clean'})
     # the statement-number form explored above is the path form of BuildSched on the real graphs as well
     # (state by state, on the graphs small enough for the slow path-level evaluation)
-    small = sorted((c for c in good if c['info']['states'] <= 600), key=lambda c: c['info']['states'])[:12]
+    small = sorted((c for c in good if c['info']['states'] <= 800), key=lambda c: -c['info']['states'])[:10]
     if small:
         with scratch('c05f-') as d:
             tf = d / 'cases.json'
@@ -371,14 +371,14 @@ def judge_and_report(chk: Check, cases: T.List[T.Dict[str, T.Any]], label: str, 
 
 # quick tier: every block kind once; (kind, variant) with variant None = seeded choice
 QUICK_PLAN = [[('hdr', 3), ('chain', None)], [('dep', None), ('script', 0), ('conf', 0)], [('gen', 1), ('ctlib', 0)],
-              [('tool', None)], [('link', None), ('run', 0)], [('subproj', None), ('hdr', None)]]
+              [('tool', None), ('run', 0)], [('link', None)], [('subproj', None), ('hdr', None)]]
 
 
 def make_jobs(chk: Check, quick: bool) -> T.List[T.Dict[str, T.Any]]:
     cap = 60000 if quick else 150000
     jobs: T.List[T.Dict[str, T.Any]] = []
-    n_shape = int(os.environ.get('C05_SHAPES') or (len(QUICK_PLAN) if quick else 115))
-    n_overlay = int(os.environ.get('C05_OVERLAYS') or (1 if quick else 35))
+    n_shape = int(os.environ.get('C05_SHAPES') or (len(QUICK_PLAN) if quick else 130))
+    n_overlay = int(os.environ.get('C05_OVERLAYS') or (1 if quick else 40))
     for k in range(n_shape):
         rnd = random.Random(chk.seed * 7919 + k)
         if k < len(QUICK_PLAN):
@@ -486,6 +486,7 @@ def main(chk: Check) -> None:
         'graphs with more prefix-closed statement sets than the tier cap are judged by the declarative form only '
         '(proved equivalent on all three-statement graphs)',
         'transient files (created and removed inside one step, e.g. ar/ld temporaries) are not writes',
+        'GCC precompiled headers (.gch) are not byte-reproducible even for identical inputs: only their presence is compared',
     ]
 
 
